@@ -6,6 +6,7 @@ import (
 	"sort"
 	"strconv"
 	"strings"
+	"sync"
 	"time"
 
 	"github.com/openebs/jiva/types"
@@ -36,11 +37,12 @@ type SProgram struct {
 }
 
 type ackedWrite struct {
-	Off, Len int64
-	Sum      uint64
-	W        []int // nodes attached (non-ERR) when it was issued
-	A        []int // nodes that applied it
-	ARW      int   // how many of those were RW (not rebuilding) at the time
+	Off, Len  int64
+	Sum       uint64
+	W         []int // nodes attached (non-ERR) when it was issued
+	A         []int // nodes that applied it
+	ARW       int   // how many of those were RW (not rebuilding) at the time
+	Unordered bool  // issued concurrently with others: its position in the node logs is not fixed
 }
 
 // SExec runs stack programs against the real controller and nodes and a
@@ -62,6 +64,8 @@ type SExec struct {
 	prevRO                 bool
 	ROProbes               int
 	snaps                  []string
+	wseq                   map[int]int64 // per race writer: last sequence number used
+	raceLayout             string        // number of race writers (fixed for the case)
 }
 
 func (x *SExec) tracef(f string, a ...interface{}) {
@@ -309,13 +313,46 @@ func (x *SExec) apply(i int, op SOp) *Fail {
 		if src < 0 {
 			return nil
 		}
+		cpFail := 0
+		for _, j := range op.Fail {
+			j = j % len(st.Nodes)
+			if x.Mode[j] == types.RW || j == n {
+				st.Nodes[j].FailRest("setcheckpoint", 1)
+				cpFail++
+			}
+		}
 		err := st.Promote(src, n)
-		x.tracef("promote n%d from n%d -> %v", n, src, err)
+		for _, nd := range st.Nodes {
+			nd.ClearFaults()
+		}
+		x.tracef("promote n%d from n%d cpfail=%v -> %v", n, src, op.Fail, err)
 		if err != nil {
 			return sfail("promote|refused", fmt.Sprintf("rebuild of n%d from n%d failed: %v", n, src, err), "C07", "C03")
 		}
 		x.Mode[n] = types.RW
 		x.Labels["promote:ok"]++
+		if x.nRW() == x.P.RF {
+			// all RF replicas are RW and agree on their latest snapshot (the one
+			// taken when the replica was added): the checkpoint is recomputed now
+			cp := st.C.VerifState().Checkpoint
+			if cpFail > 0 {
+				x.Labels["promote:setcheckpoint-failed"]++
+				if cp != "" {
+					return sfail("checkpoint|kept-after-setcheckpoint-failure", fmt.Sprintf("set-checkpoint failed on %d replicas but the controller records checkpoint %s", cpFail, cp), "C13")
+				}
+			} else {
+				for j, nd := range st.Nodes {
+					if x.Mode[j] != types.RW || nd.S.Replica() == nil {
+						continue
+					}
+					ch, _ := nd.S.Replica().Chain()
+					if len(ch) < 2 || cp != ch[1] {
+						return sfail("checkpoint|not-latest-snapshot", fmt.Sprintf("after the promotion all %d replicas are RW; controller checkpoint %q, n%d chain %v", x.P.RF, cp, j, ch), "C13")
+					}
+				}
+				x.Labels["checkpoint:recomputed"]++
+			}
+		}
 		// C07/C10: counters equal
 		a, _ := st.Nodes[src].S.Replica(), 0
 		if a != nil && st.Nodes[n].S.Replica() != nil {
@@ -387,6 +424,8 @@ func (x *SExec) apply(i int, op SOp) *Fail {
 		}
 	case "snapshot":
 		return x.doSnapshot(i, op)
+	case "race":
+		return x.doRace(i, op)
 	case "setmode":
 		n := op.Node % len(st.Nodes)
 		addr := st.Nodes[n].Addr
@@ -947,6 +986,18 @@ func (x *SExec) Finish() *Fail {
 				continue
 			}
 			found := false
+			if a.Unordered {
+				for _, e := range lg[x.AttLog[j]:] {
+					if e.Kind == "write" && e.Applied && e.Off == a.Off && e.Len == a.Len && e.Sum == a.Sum {
+						found = true
+						break
+					}
+				}
+				if !found {
+					return sfail("acked-write-missing-on-replica", fmt.Sprintf("n%d (%s) lacks acknowledged write off=%d len=%d", j, x.Mode[j], a.Off, a.Len), "C02")
+				}
+				continue
+			}
 			for pos < len(lg) {
 				e := lg[pos]
 				pos++
@@ -1001,3 +1052,216 @@ func RunSProgram(p SProgram) (*SExec, *Fail, error) {
 
 var _ = bytes.Equal
 var _ = strings.Join
+
+// ---- C13: writers racing with volume snapshots ------------------------------
+
+type raceWrite struct {
+	j             int64
+	issued, acked time.Time
+	ok            bool
+}
+
+type raceSnap struct {
+	name            string
+	start, returned time.Time
+	err             error
+}
+
+func stamp(w int, j int64) []byte {
+	b := make([]byte, Sec)
+	for k := 0; k+8 <= Sec; k += 8 {
+		b[k] = 0xC1
+		b[k+1] = byte(w + 1)
+		b[k+2] = byte(j >> 40)
+		b[k+3] = byte(j >> 32)
+		b[k+4] = byte(j >> 24)
+		b[k+5] = byte(j >> 16)
+		b[k+6] = byte(j >> 8)
+		b[k+7] = byte(j)
+	}
+	return b
+}
+
+func unstamp(b []byte) (w int, j int64, ok bool) {
+	if b[0] != 0xC1 {
+		return 0, 0, false
+	}
+	w = int(b[1]) - 1
+	j = int64(b[2])<<40 | int64(b[3])<<32 | int64(b[4])<<24 | int64(b[5])<<16 | int64(b[6])<<8 | int64(b[7])
+	return w, j, true
+}
+
+// doRace: op.Node = writers (1-3), op.N = writes per writer, op.Reps = snapshot
+// requests, op.Off/op.Len = delay of the first snapshot / spacing, in microseconds.
+func (x *SExec) doRace(i int, op SOp) *Fail {
+	st := x.St
+	c := st.C
+	if x.readOnly() {
+		return nil
+	}
+	writers := op.Node
+	if writers < 1 {
+		writers = 1
+	}
+	blocks := int(x.Live.size() / Blk)
+	if x.raceLayout == "" {
+		x.raceLayout = fmt.Sprintf("%d", writers)
+		x.wseq = map[int]int64{}
+	} else {
+		fmt.Sscanf(x.raceLayout, "%d", &writers) // the block ownership is fixed for the whole case
+	}
+	nb := blocks / writers
+	if nb < 1 {
+		return nil
+	}
+	allRW := x.nRW() == x.P.RF
+	W := x.writers()
+	var mu sync.Mutex
+	wlog := make([][]raceWrite, writers)
+	snaps := make([]raceSnap, op.Reps)
+	var wg sync.WaitGroup
+	start := make(chan struct{})
+	for w := 0; w < writers; w++ {
+		wg.Add(1)
+		go func(w int) {
+			defer wg.Done()
+			<-start
+			j0 := x.wseq[w]
+			for k := int64(1); k <= op.N; k++ {
+				j := j0 + k
+				blk := int64(w*nb) + j%int64(nb)
+				rw := raceWrite{j: j, issued: time.Now()}
+				n, err := c.WriteAt(stamp(w, j), blk*Blk)
+				rw.acked = time.Now()
+				rw.ok = err == nil && n == Sec
+				mu.Lock()
+				wlog[w] = append(wlog[w], rw)
+				mu.Unlock()
+				if !rw.ok {
+					return
+				}
+			}
+		}(w)
+	}
+	for k := 0; k < op.Reps; k++ {
+		wg.Add(1)
+		go func(k int) {
+			defer wg.Done()
+			<-start
+			time.Sleep(time.Duration(op.Off+int64(k)*op.Len) * time.Microsecond)
+			name := fmt.Sprintf("r%d-%d", i, k)
+			sn := raceSnap{name: name, start: time.Now()}
+			_, sn.err = c.Snapshot(name)
+			sn.returned = time.Now()
+			mu.Lock()
+			snaps[k] = sn
+			mu.Unlock()
+		}(k)
+	}
+	close(start)
+	wg.Wait()
+	// model: writes
+	for w := 0; w < writers; w++ {
+		for _, rw := range wlog[w] {
+			blk := int64(w*nb) + rw.j%int64(nb)
+			if rw.ok {
+				x.Live.Write(blk*Blk, stamp(w, rw.j))
+				x.Acked = append(x.Acked, ackedWrite{Off: blk * Blk, Len: Sec, Sum: sum64(stamp(w, rw.j)), W: W, A: W, ARW: x.nRW(), Unordered: true})
+				x.wseq[w] = rw.j
+			} else {
+				return sfail("race|write-failed", fmt.Sprintf("writer %d write %d failed without any injected fault", w, rw.j), "C05", "C02")
+			}
+		}
+	}
+	x.tracef("race writers=%d per=%d snaps=%d allRW=%v", writers, op.N, op.Reps, allRW)
+	x.Labels["race"]++
+	for _, sn := range snaps {
+		if !allRW {
+			if sn.err == nil {
+				return sfail("snapshot|not-all-RW|accepted", fmt.Sprintf("volume snapshot %s accepted with modes %v, RF=%d", sn.name, x.Mode, x.P.RF), "C13")
+			}
+			continue
+		}
+		if sn.err != nil {
+			return sfail("snapshot|valid|refused", fmt.Sprintf("volume snapshot %s refused: %v", sn.name, sn.err), "C13")
+		}
+		x.snaps = append(x.snaps, sn.name)
+		x.Labels["race:snapshot-ok"]++
+		// identical content on every replica
+		var ref []byte
+		refNode := -1
+		for j, nd := range st.Nodes {
+			if x.Mode[j] != types.RW {
+				continue
+			}
+			img, err := ReadDiskImage(nd.Dir, snapDisk(sn.name), x.Live.size())
+			if err != nil {
+				return sfail("snapshot|missing-on-replica", fmt.Sprintf("snapshot %s on n%d: %v", sn.name, j, err), "C13")
+			}
+			if ref == nil {
+				ref, refNode = img, j
+				continue
+			}
+			if !bytes.Equal(ref, img) {
+				p := 0
+				for p < len(ref) && ref[p] == img[p] {
+					p++
+				}
+				return sfail("snapshot|differs-between-replicas", fmt.Sprintf("snapshot %s differs between n%d and n%d at byte %d (block %d)", sn.name, refNode, j, p, p/Blk), "C13")
+			}
+		}
+		// consistent cut per writer
+		for w := 0; w < writers; w++ {
+			var cut int64
+			seen := make([]int64, nb)
+			for r := 0; r < nb; r++ {
+				off := (int64(w*nb) + int64(r)) * Blk
+				ww, j, ok := unstamp(ref[off : off+Sec])
+				if ok && ww == w {
+					seen[r] = j
+					if j > cut {
+						cut = j
+					}
+				} else if ok {
+					return sfail("snapshot|foreign-data", fmt.Sprintf("snapshot %s block %d holds a stamp of writer %d", sn.name, off/Blk, ww), "C13", "C01")
+				}
+			}
+			for r := 0; r < nb; r++ {
+				// largest j <= cut with j mod nb == r
+				want := cut - ((cut-int64(r))%int64(nb)+int64(nb))%int64(nb)
+				if want < 0 {
+					want = 0
+				}
+				if seen[r] != want {
+					return sfail("snapshot|not-a-point-in-time-image", fmt.Sprintf("snapshot %s, writer %d: newest write in the image is %d, so block %d should hold write %d but holds %d", sn.name, w, cut, r, want, seen[r]), "C13")
+				}
+			}
+			var lastAckedBefore, lastIssuedBefore int64
+			for _, rw := range wlog[w] {
+				if rw.ok && rw.acked.Before(sn.start) && rw.j > lastAckedBefore {
+					lastAckedBefore = rw.j
+				}
+				if rw.issued.Before(sn.returned) && rw.j > lastIssuedBefore {
+					lastIssuedBefore = rw.j
+				}
+			}
+			prev := x.wseq[w] - int64(len(wlog[w]))
+			if lastAckedBefore == 0 {
+				lastAckedBefore = prev
+			}
+			if lastIssuedBefore == 0 {
+				lastIssuedBefore = prev
+			}
+			if cut < lastAckedBefore {
+				return sfail("snapshot|misses-acknowledged-write", fmt.Sprintf("snapshot %s lacks writer %d's write %d acknowledged before the request started (image has up to %d)", sn.name, w, lastAckedBefore, cut), "C13")
+			}
+			if cut > lastIssuedBefore {
+				return sfail("snapshot|contains-later-write", fmt.Sprintf("snapshot %s contains writer %d's write %d issued after the request returned (last issued before: %d)", sn.name, w, cut, lastIssuedBefore), "C13")
+			}
+			if cut > lastAckedBefore && cut < x.wseq[w] {
+				x.Labels["race:snapshot-mid-stream"]++
+			}
+		}
+	}
+	return nil
+}
